@@ -15,7 +15,7 @@ CLAUSE = {1: "first-read-default", 2: "read-notified", 3: "default-method-twice"
           9: "default-not-stored", 10: "harness-digest", 11: "read-raised", 20: "declared-class-tables"}
 CONTAINER = ("KListCopy", "KDictCopy", "KTraitList", "KTraitDict", "KTraitSet")
 KINDS = ["KConst", "KListCopy", "KDictCopy", "KTraitList", "KTraitDict", "KTraitSet", "KFactory", "KMethod",
-         "KTuple", "KUnion", "KMethodInt"]
+         "KTuple", "KUnion", "KMethodInt", "KTuple2"]
 
 
 # ---- declared class tables (what the configuration says; compared in Coq with what the driver observed)
@@ -34,7 +34,7 @@ def declared(case):
         doid = 0
         if t["kind"] in CONTAINER:
             doid, nxt = nxt, nxt + 1
-        d = tdef(t["kind"], t["content"], t["scalar"] if t["kind"] == "KTuple" else 0, doid,
+        d = tdef(t["kind"], t["content"], t["scalar"] if t["kind"] in ("KTuple", "KTuple2") else 0, doid,
                  1 if t["static"] else 0, t["static"], CMP[t.get("cmp", "equality")])
         base[t["name"]] = d
         rows0.append([t["name"], d])
@@ -112,7 +112,7 @@ def op_term(op):
 
 def value_payload(v):
     """(content, scalar) that rebuilds a value of the same contents through Assign."""
-    if v["shape"] == 4:
+    if v["shape"] in (4, 7):
         return list(v["parts"][1][1]), v["parts"][2][1][0]
     return list(v["parts"][0][1]), 0
 
@@ -191,9 +191,12 @@ def gen_case(rnd, ctx, maxlen):
                            cmp=rnd.choice(["equality"] * 5 + ["none", "identity"])))
         ctx.count("kind:" + k)
         ctx.count("comparison-mode:" + traits[-1]["cmp"])
-        if k in ("KListCopy", "KDictCopy") and rnd.random() < 0.5:
+        if k in ("KListCopy", "KDictCopy") and rnd.random() < 0.35:
             traits[-1]["subclass"] = True        # the declared default is an instance of a list / dict subclass
             ctx.count("default:container-subclass-instance")
+        elif k in ("KListCopy", "KDictCopy") and rnd.random() < 0.5:
+            traits[-1]["inferred"] = True        # a user-defined TraitType: the copying kind is inferred from the value
+            ctx.count("default:kind-inferred")
     sub = []
     for t in traits:
         r = rnd.random()
@@ -240,6 +243,7 @@ def gen_case(rnd, ctx, maxlen):
         return True
 
     mat = [set() for _ in ops]              # attributes certainly in __dict__ (read, mutated or assigned before)
+    dirty = set()                           # (instance, name) of two-list tuples whose second list was mutated
     pending = []
     nsteps = rnd.randint(2, maxlen)
     focus = rnd.randrange(len(traits))      # interleave the same attribute on several instances
@@ -257,8 +261,9 @@ def gen_case(rnd, ctx, maxlen):
         elif r < 0.36:
             # hand instance i's own container object to another instance's same-named trait, then mutate i's
             cands = [(a, m) for a in range(len(cls_of)) for m in sorted(mat[a])
-                     if m < len(traits) and traits[m]["kind"] in ("KTraitList", "KTraitDict", "KTraitSet", "KMethod")
-                     and assignable(m) and m not in shadow[a]]
+                     if m < len(traits) and traits[m]["kind"] in ("KTraitList", "KTraitDict", "KTraitSet", "KMethod",
+                                                                  "KTuple", "KTuple2")
+                     and assignable(m) and m not in shadow[a] and (a, m) not in dirty]
             others = [b for b in range(len(cls_of))]
             if cands and len(others) > 1:
                 a, m = rnd.choice(cands)
@@ -291,7 +296,8 @@ def gen_case(rnd, ctx, maxlen):
             op = ["Introspect", i, rnd.randint(0, 4)]
             if rnd.random() < 0.4:
                 # obj.trait(name, copy=True), then metadata set on the copy
-                op = ["Introspect", i, 100000 + 100 * rnd.choice(names) + rnd.randint(1, 9)]
+                defined = [m for m in names if m < 60]     # (force=True on an unresolved wildcard name resolves it)
+                op = ["Introspect", i, rnd.choice([100000, 200000]) + 100 * rnd.choice(defined) + rnd.randint(1, 9)]
                 ctx.count("trait-copy-metadata")
         elif r < 0.95:
             if rnd.random() < 0.5:
@@ -317,6 +323,10 @@ def gen_case(rnd, ctx, maxlen):
             mat.append(set())
         if op[0] in ("Read", "Mutate", "Assign", "AssignFrom"):
             mat[op[1]].add(op[2])
+        if op[0] == "Mutate" and op[2] < len(traits) and traits[op[2]]["kind"] == "KTuple2":
+            dirty.add((op[1], op[2]))
+        if op[0] in ("Assign", "AssignFrom"):
+            dirty.discard((op[1], op[2]))
         ops.append(op)
         ctx.count("op:" + op[0])
     # inspect the siblings at the end: read every declared attribute of the last instance
@@ -338,17 +348,18 @@ def gen_case(rnd, ctx, maxlen):
 def all_kinds_case(static):
     traits = [dict(name=n, kind=k, content=c, scalar=3, static=static) for n, (k, c) in enumerate([
         ("KConst", [5]), ("KListCopy", [1, 2]), ("KDictCopy", [1, 1]), ("KTraitList", [1, 2]), ("KTraitDict", [1, 1]),
-        ("KTraitSet", [1]), ("KFactory", [9]), ("KMethod", [7]), ("KTuple", [4]), ("KUnion", [6]), ("KMethodInt", [4])])]
+        ("KTraitSet", [1]), ("KFactory", [9]), ("KMethod", [7]), ("KTuple", [4]), ("KUnion", [6]), ("KMethodInt", [4]),
+        ("KTuple2", [2])])]
     sub = [dict(name=0, how="const", content=[6]), dict(name=3, how="list", content=[3]),
            dict(name=7, how="method", content=[8])]
     ops = [["NewInst", 0], ["NewInst", 1], ["NewInst", 0]]
-    for n in range(11):
+    for n in range(12):
         ops += [["Read", 0, n], ["Read", 0, n], ["Mutate", 0, n, 100 + n], ["Read", 1, n], ["Mutate", 1, n, 200 + n]]
     ops += [["Register", 0, 3, 1, False], ["Register", 1, 7, 2, True], ["Assign", 0, 3, [1], 0], ["Assign", 1, 7, [2], 0],
             ["Assign", 1, 0, [6], 0], ["Assign", 1, 0, [7], 0], ["Assign", 2, 10, [4], 0], ["Assign", 2, 10, [5], 0],
             ["AddTrait", 0, 50, dict(kind="KTraitList", content=[4, 4])], ["AddTrait", 0, 0, dict(kind="KConst", content=[77])],
             ["Read", 0, 50], ["Read", 0, 0], ["NewInst", 1], ["NewInst", 0]]
-    for n in range(11):
+    for n in range(12):
         ops += [["Read", 2, n], ["Read", 3, n], ["Read", 4, n], ["Read", 4, n]]
     return dict(traits=traits, sub=sub, ops=ops)
 
@@ -414,11 +425,17 @@ def handover_case():
     """Instance 0's own List/Dict/Set container objects are assigned to the same-named traits of instances 1 and 2
     (the trait must copy them into a new container), then mutated through instance 0."""
     traits = [dict(name=n, kind=k, content=c, scalar=0, static=(n == 1)) for n, (k, c) in enumerate([
-        ("KTraitList", [1, 2]), ("KTraitDict", [1, 1]), ("KTraitSet", [1]), ("KMethod", [7])])]
+        ("KTraitList", [1, 2]), ("KTraitDict", [1, 1]), ("KTraitSet", [1]), ("KMethod", [7]), ("KTuple", [4]),
+        ("KTuple2", [5])])]
+    for t in traits:
+        t["scalar"] = 3
     ops = [["NewInst", 0], ["NewInst", 0], ["NewInst", 1], ["Register", 1, 1, 1, True]]
     for n in range(4):
         ops += [["Read", 0, n], ["AssignFrom", 1, n, 0], ["Mutate", 0, n, 100 + n], ["AssignFrom", 2, n, 0],
                 ["Mutate", 0, n, 200 + n], ["Mutate", 1, n, 300 + n], ["Read", 1, n], ["Read", 2, n]]
+    for n in (4, 5):       # tuples: hand over first, then mutate the receiver's member, then the giver's
+        ops += [["Read", 0, n], ["AssignFrom", 1, n, 0], ["AssignFrom", 2, n, 0], ["Mutate", 1, n, 300 + n],
+                ["Mutate", 0, n, 100 + n], ["Read", 1, n], ["Read", 2, n], ["Assign", 2, n, [8], 9], ["Mutate", 2, n, 400 + n]]
     return dict(traits=traits, sub=[], ops=ops)
 
 
@@ -438,12 +455,14 @@ def definitions_case():
     Any defaults that are instances of list / dict subclasses; private trait copies whose metadata is then set."""
     traits = [dict(name=0, kind="KListCopy", content=[1, 2], scalar=0, static=False, subclass=True),
               dict(name=1, kind="KDictCopy", content=[1, 1], scalar=0, static=True, subclass=True),
+              dict(name=4, kind="KListCopy", content=[3], scalar=0, static=False, inferred=True),
+              dict(name=5, kind="KDictCopy", content=[2, 2], scalar=0, static=False, inferred=True),
               dict(name=2, kind="KTuple", content=[4], scalar=3, static=False),
               dict(name=3, kind="KConst", content=[5], scalar=0, static=False)]
     ops = [["NewInst", 0], ["NewInst", 0], ["NewInst", 1]]
-    for n in (0, 1, 2, 3, 70, 71):
+    for n in (0, 1, 2, 3, 4, 5, 70, 71):
         ops += [["Read", 0, n], ["Mutate", 0, n, 100 + n], ["Introspect", 0, 100000 + 100 * n + 4], ["Read", 1, n],
-                ["Introspect", 2, 100000 + 100 * n + 5], ["Read", 2, n]]
+                ["Introspect", 2, 200000 + 100 * n + 5], ["Read", 2, n]]
     ops += [["Assign", 0, 70, [8], 0], ["Assign", 1, 71, [9], 0], ["Assign", 2, 71, [2], 0], ["Assign", 2, 70, [2], 0],
             ["NewInst", 0], ["Read", 3, 0], ["Read", 3, 1], ["Read", 3, 70], ["Read", 3, 71]]
     return dict(traits=traits, sub=[], ops=ops, shared_ct=dict(value=3, names=[70, 71], static=[70]))
@@ -470,7 +489,7 @@ def run(ctx):
                        "double reads on the last instance; a case is non-trivial if >= 2 instances exist and some step "
                        "returns a container object; distinct = distinct (configuration, history)")
     rnd = random.Random(ctx.seed)
-    n, maxlen = (200, 12) if ctx.tier == "quick" else (3000, 30)
+    n, maxlen = (200, 12) if ctx.tier == "quick" else (2500, 30)
     if ctx.replay:
         cases = [json.load(open(ctx.replay))["replay"]["case"]]
     else:
